@@ -482,3 +482,99 @@ def c03_cache(inputs, doc):
                     if prob:
                         return dict(frame=cname, metadata_len=ml, data_len=dl, complete=complete, fragment_size=fs, fragments=n, problem=prob)
     return None
+
+
+# --------------------------------------------------------------------------- C14 / C16
+
+def c14_to_ms(inputs, doc):
+    from datetime import timedelta
+    from rsocket.datetime_helpers import to_milliseconds
+    for us in [inputs.get('microseconds', 0), 500000, 1500000, 5000000, 1, 499, 500, 501, 1000, 999999, 2500000, 60 * 10**6 + 250000]:
+        if us is None or us < 0 or us > 10**15:
+            continue
+        r = to_milliseconds(timedelta(microseconds=us))
+        if abs(r * 1000 - us) > 500 or (us % 1000 == 0 and r * 1000 != us):
+            return dict(period_us=us, observed_ms=r, expected_ms=round(us / 1000))
+    return None
+
+
+class _Clock:
+    """Patch datetime.now() inside rsocket.lease with a virtual clock."""
+
+    def __init__(self, t):
+        import datetime as dt
+        self.t = t
+        outer = self
+
+        class FakeDT(dt.datetime):
+            @classmethod
+            def now(cls, tz=None):
+                return dt.datetime(2020, 1, 1) + dt.timedelta(microseconds=outer.t)
+        self.cls = FakeDT
+
+    def install(self):
+        import rsocket.lease as L
+        L.datetime = self.cls
+
+
+def c14_lease(inputs, doc):
+    from datetime import timedelta
+    import rsocket.lease as L
+    cases = [(inputs.get('granted', 1), inputs.get('ttl_us', 1000), inputs.get('counter', 0),
+              (inputs.get('now', 0) or 0) - (inputs.get('created', 0) or 0))]
+    cases += [(1, 1000, 0, 0), (1, 1000, 0, 999), (1, 1000, 0, 1000), (2, 1500000, 0, 1750000), (3, 10**6, 2, 0), (3, 10**6, 3, 0),
+              (0, 10**6, 0, 0), (5, 0, 0, 0)]
+    for granted, ttl, counter, elapsed in cases:
+        if None in (granted, ttl, counter, elapsed) or elapsed < 0 or ttl < 0 or ttl > 10**15 or elapsed > 10**15:
+            continue
+        clk = _Clock(0)
+        clk.install()
+        lease = L.DefinedLease(granted, timedelta(microseconds=ttl))
+        lease._request_counter = counter
+        clk.t = elapsed
+        got = lease.is_request_allowed(1)
+        want = (elapsed < ttl) and (counter + 1 <= granted)
+        if bool(got) != want:
+            return dict(granted=granted, ttl_us=ttl, used=counter, elapsed_us=elapsed, observed=got, expected=want)
+    return None
+
+
+def c14_handle_lease(inputs, doc):
+    """Real RSocketBase.handle_lease on a server-side socket object built without a transport."""
+    import asyncio
+    from rsocket.rsocket_server import RSocketServer
+    from rsocket.frame import LeaseFrame
+    from rsocket.frame_builders import to_request_response_frame
+    from rsocket.payload import Payload
+    from rsocket.queue_peekable import QueuePeekable
+    from rsocket.lease import DefinedLease
+
+    async def run(n, ttl, queued):
+        s = RSocketServer.__new__(RSocketServer)
+        s._honor_lease = True
+        s._send_queue = QueuePeekable()
+        s._request_queue = asyncio.Queue()
+        s._requester_lease = DefinedLease(5)
+        frames = [to_request_response_frame(2 * i + 1, Payload(b'x')) for i in range(queued)]
+        for f in frames:
+            s._request_queue.put_nowait(f)
+        lf = LeaseFrame()
+        lf.number_of_requests = n
+        lf.time_to_live = ttl
+        await s.handle_lease(lf)
+        sent = list(s._send_queue._queue)
+        left = list(s._request_queue._queue)
+        exp = min(queued, n) if ttl > 0 else 0
+        if sent != frames[:exp] or left != frames[exp:] or s._requester_lease.maximum_request_count != n:
+            return dict(number_of_requests=n, ttl_ms=ttl, queued=queued, sent=len(sent), expected_sent=exp,
+                        lease_count=s._requester_lease.maximum_request_count)
+        return None
+    cases = [(inputs.get('number_of_requests', 0), inputs.get('time_to_live_ms', 1000), min(inputs.get('queued_requests', 0) or 0, 50))]
+    cases += [(0, 1000, 3), (2, 1000, 3), (3, 1000, 3), (5, 1000, 3), (5, 0, 3), (1, 3000, 0)]
+    for n, ttl, q in cases:
+        if None in (n, ttl, q):
+            continue
+        bad = asyncio.run(run(n, ttl, q))
+        if bad:
+            return bad
+    return None
